@@ -641,6 +641,12 @@ Proof.
     + rewrite <- app_assoc. reflexivity.
 Qed.
 
+Lemma epigraph_text : forall ep r,
+  (forall a, apply_epis r (TAtom a) ep =
+     (r ++ raln_text ep, TAtom (if existsb is_aln ep then AStr (atom_str a ++ aln_text ep) else a))) /\
+  (forall n, apply_epis r (TNode n) ep = (r ++ raln_text ep, TNode n)).
+Proof. intros ep r. split; [intros a; apply apply_epis_atom|intros n; apply apply_epis_node]. Qed.
+
 (* the cutting functions: a role and a Symbol are cut at the first tilde, a
    String lexeme after its closing dquote (exactly the cuts of [process_role]
    and [process_atomic], without parsing the suffix) *)
@@ -694,6 +700,12 @@ Proof.
       inversion H; reflexivity.
   - destruct z; [inversion H; reflexivity|discriminate].
 Qed.
+
+Lemma strip_is_the_reader_cut :
+  (forall r r' ep, process_role r = Ok (r', ep) ->
+     r' = if str_eqb r SLASHS then INSTANCE else strip_aln_role r) /\
+  (forall a a' ep, process_atomic a = Ok (a', ep) -> a' = strip_aln_atom a).
+Proof. split; [exact process_role_strips|exact process_atomic_strips]. Qed.
 
 (* ---- text lemmas ---- *)
 Definition tilde_free (s : str) : Prop := contains_char TILDE s = false.
